@@ -83,6 +83,32 @@ pub fn run(a: &Args) -> Report {
         }
     }
 
+    if cfg.first_case == 0 && (prop == "C06" || prop == "C07") {
+        // registries with very many entries: the type table itself crosses 1024 / 16384 entries
+        for n in [1025usize, 16383, 16384, 16385, 20_000] {
+            let mut rng = Rng::derive(seed ^ 0xb16, n as u64);
+            let ids = reggen::IdGen { mode: Mode::WellFormed, shape: reggen::Shape::Sparse, n };
+            let cfgs = Cfg::small(Mode::WellFormed);
+            let r = PortableRegistry { types: (0..n).map(|k| scale_info::PortableType::new(k as u32, if k % 50 == 0 { reggen::gen_type(&mut rng, &cfgs, &ids, k, None) } else { reggen::gen_type(&mut rng, &cfgs, &ids, k, Some(5 + (k % 2))) })).collect() };
+            let ref_bytes = refcodec::encode(&r);
+            let lib_bytes = r.encode();
+            rep.eval(Some(hash_bytes(&ref_bytes)));
+            rep.count("large_registries", 1);
+            rep.max("max_types", n as u64);
+            let case = json!({"fixed_large_registry_entries": n, "seed": seed});
+            if lib_bytes != ref_bytes {
+                rep.violation(&format!("{}/large-registry-encode", prop), format!("a registry of {} entries encodes differently from the layout", n), case.clone());
+            }
+            for (what, res) in [("slice", guard(|| PortableRegistry::decode(&mut &ref_bytes[..]))), ("stream", guard(|| PortableRegistry::decode(&mut scale::IoReader(&ref_bytes[..]))))] {
+                match res {
+                    Ok(Ok(r2)) if r2 == r => {}
+                    Ok(Ok(r2)) => rep.violation(&format!("{}/large-registry-roundtrip", prop), format!("a registry of {} entries decodes ({} input) to {} entries / a different value", n, what, r2.types.len()), case.clone()),
+                    other => rep.violation(&format!("{}/large-registry-roundtrip", prop), format!("a registry of {} entries does not decode ({} input): {:?}", n, what, other.map(|x| x.map(|_| ()).map_err(|e| e.to_string()))), case.clone()),
+                }
+            }
+        }
+    }
+
     let body = run_parallel(&cfg, |i, rep| {
         let (r, mode, mut rng) = gen_case(seed, i, thorough);
         let ref_bytes = refcodec::encode(&r);
@@ -141,6 +167,13 @@ pub fn run(a: &Args) -> Report {
                     Err(p) => rep.violation("C06/lib-decode-of-ref", format!("library panics on layout bytes: {}", p), case()),
                 }
                 rep.count("bytes_compared", ref_bytes.len() as u64);
+                // an input that cannot tell its remaining length (streaming reader) must decode the same bytes to the same value
+                if i % 4 == 0 {
+                    match guard(|| PortableRegistry::decode(&mut scale::IoReader(&ref_bytes[..]))) {
+                        Ok(Ok(r2)) if r2 == r => rep.count("stream_input_decodes", 1),
+                        other => rep.violation("C06/lib-decode-of-ref-stream", format!("library does not decode layout bytes from a streaming input: {:?}", other.map(|x| x.map(|_| "different registry").map_err(|e| e.to_string()))), case()),
+                    }
+                }
             }
             "C07" => {
                 // round trip, exact consumption
@@ -156,6 +189,12 @@ pub fn run(a: &Args) -> Report {
                     }
                     Ok(Err(e)) => rep.violation("C07/roundtrip-rejects", format!("decode(encode(r)) fails: {}", e), case()),
                     Err(p) => rep.violation("C07/roundtrip-panics", p, case()),
+                }
+                if i % 4 == 0 {
+                    match guard(|| PortableRegistry::decode(&mut scale::IoReader(&lib_bytes[..]))) {
+                        Ok(Ok(r2)) if r2 == r => rep.count("stream_input_roundtrips", 1),
+                        other => rep.violation("C07/roundtrip-stream-input", format!("decode(encode(r)) through a streaming input: {:?}", other.map(|x| x.map(|_| "different registry").map_err(|e| e.to_string()))), case()),
+                    }
                 }
                 // trailing bytes are left untouched
                 let trailer = rng.bytes(rng.clone().below(9) + 1);
